@@ -213,6 +213,81 @@ def _guard_atoms_local(body, bb, depth=0):
         out.append((e, pol, val, sb))
         if e[0] == "phi" and pol is not None and depth < 2 and body.locals[e[1]]["ty"] == "bool":
             out += _phi_implied(body, e[1], pol, depth)
+        if e[0] == "call" and pol is not None and depth < 2 and len(e[2]) == 1 and strip(e[2][0])[0] == "phi" and \
+                (e[1].endswith("Option::<T>::is_some") or e[1].endswith("Option::<T>::is_none")):
+            out += _option_known(body, strip(e[2][0])[1], pol if e[1].endswith("is_some") else (not pol), depth)
+        if e[0] == "call" and pol is not None and depth < 2 and (e[1].endswith("PartialEq::eq") or e[1].endswith("PartialEq::ne")) \
+                and len(e[2]) == 2:
+            out += _option_eq_implied(body, e, pol if e[1].endswith("::eq") else (not pol), depth)
+    return out
+
+
+def _option_known(body, l, is_some, depth):
+    """An Option assembled on several paths is known to be Some (resp. None): if exactly one definition builds that variant,
+    the guards of that definition hold."""
+    want = "Some" if is_some else "None"
+    hits = []
+    for d in body.defs().get(l, []):
+        if body.blocks[d[1]]["cleanup"]:
+            continue
+        if d[0] != "stmt" or d[3]["k"] != "=":
+            return []
+        de = body.expr_of_rvalue(d[3]["rv"])
+        if de[0] == "agg" and de[2] in ("Some", "None"):
+            if de[2] == want:
+                hits.append(d[1])
+        else:
+            return []
+    if len(hits) != 1:
+        return []
+    return list(_guard_atoms_local(body, hits[0], depth + 1))
+
+
+def deep_sources(body, e, depth=0):
+    """value_sources applied recursively inside call arguments: every leaf expression a value may be computed from."""
+    out = []
+    for src in value_sources(body, e):
+        out.append(src)
+        if src[0] == "call" and depth < 3:
+            for a in src[2]:
+                if isinstance(a, tuple):
+                    out += deep_sources(body, a, depth + 1)
+        if src[0] == "agg" and depth < 3:
+            for a in src[3]:
+                if isinstance(a, tuple):
+                    out += deep_sources(body, a, depth + 1)
+    return out
+
+
+def _option_eq_implied(body, e, equal, depth):
+    """`<opt assembled on several paths> == Some(y)` is known true (the shape `x.map(f) == Some(y)` has after the combinator
+    is desugared): the None definition is excluded, and for the definition `Some(v)` the atom `v == y` and the guards of
+    that definition hold."""
+    if not equal:
+        return []
+    a, b = strip(e[2][0]), strip(e[2][1])
+    if a[0] != "phi":
+        a, b = b, a
+    if a[0] != "phi" or not (b[0] == "agg" and b[2] == "Some" and b[3]):
+        return []
+    somes = []
+    for d in body.defs().get(a[1], []):
+        if body.blocks[d[1]]["cleanup"]:
+            continue
+        if d[0] != "stmt" or d[3]["k"] != "=":
+            return []
+        de = body.expr_of_rvalue(d[3]["rv"])
+        if de[0] == "agg" and de[2] == "None":
+            continue
+        if de[0] == "agg" and de[2] == "Some" and de[3]:
+            somes.append((d[1], de[3][0]))
+        else:
+            return []
+    if len(somes) != 1:
+        return []
+    blk, v = somes[0]
+    out = list(_guard_atoms_local(body, blk, depth + 1))
+    out.append((("call", "std::cmp::PartialEq::eq", [v, b[3][0]], blk), True, 1, blk))
     return out
 
 
@@ -990,3 +1065,17 @@ def expanded_guard_atoms(prog, fn_key, bb):
         if pol is True and e[0] == "call" and e[1] in prog.fns and prog.fns[e[1]].body.locals[0]["ty"] == "bool":
             extra += true_conditions(prog, e[1])
     return out + extra
+
+
+def mentions_field_deep(body, e, adt, field, depth=0):
+    """mentions_field, also looking through multiply-assigned temporaries (phi) the expression is built from."""
+    if mentions_field(e, adt, field) is not None:
+        return True
+    if depth >= 3:
+        return False
+    for x in subexprs(e):
+        if x[0] == "phi":
+            for src in value_sources(body, x):
+                if src is not x and mentions_field_deep(body, src, adt, field, depth + 1):
+                    return True
+    return False
